@@ -108,7 +108,8 @@ def step (s : DState) (line : String) : DState × Option String :=
       let kind (p v : String) : Option UserFn :=
         if toks.contains p then some .ptr else if toks.contains v then some .val else none
       let d : Decl := { under := T, external := flags.contains 'e', priv := flags.contains 'p', privMask := mask,
-                        eqM := kind "Ep" "Ev", cmpM := kind "Cp" "Cv", hashM := kind "Hp" "Hv" }
+                        eqM := kind "Ep" "Ev", cmpM := kind "Cp" "Cv", hashM := kind "Hp" "Hv",
+                        copyM := kind "Dp" "Dv" }
       ({ s with decls := fixFlags (s.decls.push d) }, none)
     | none => (s, some "bad-decl")
   | some (.atom "ty" :: .atom n :: [t]) =>
